@@ -35,6 +35,7 @@ func (cr *compRun) runLossy() {
 		tasks = append(tasks, w.Spawn(fmt.Sprintf("r%d", ti), func() {
 			seq := 0
 			for _, op := range ops {
+				simrt.BeginOp(simrt.HashString(op.Kind))
 				switch op.Kind {
 				case "add":
 					for i := 0; i < op.N; i++ {
@@ -64,6 +65,7 @@ func (cr *compRun) runLossy() {
 	}
 	consumer := w.Spawn("drainer", func() {
 		for _, op := range cc.Tasks[nprod] {
+			simrt.BeginOp(simrt.HashString(op.Kind))
 			switch op.Kind {
 			case "drain":
 				if l := s.Len(); l > maxLen {
